@@ -397,7 +397,7 @@ CALL_SHAPES = {
     ".get": ({1, 2}, set()), ".items": ({0}, set()), ".values": ({0}, set()), ".keys": ({0}, set()), ".copy": ({0}, set()),
     ".startswith": ({1}, set()), ".endswith": ({1}, set()), ".join": ({1}, set()), ".split": ({0, 1}, set()), ".splitlines": ({0}, set()),
     ".rstrip": ({0}, set()), ".strip": ({1}, set()), ".replace": ({2}, set()), ".append": ({1}, set()), ".extend": ({1}, set()),
-    ".appendleft": ({1}, set()), ".extendleft": ({1}, set()), ".update": ({1}, set()), ".pop": ({0, 2}, set()), ".popleft": ({0}, set()),
+    ".sort": ({0}, {"reverse"}), ".appendleft": ({1}, set()), ".extendleft": ({1}, set()), ".update": ({1}, set()), ".pop": ({0, 2}, set()), ".popleft": ({0}, set()),
     ".setdefault": ({2}, set()), ".add": ({1}, set()), ".neighbors": ({1}, set()), ".number_of_nodes": ({0}, set()), ".number_of_edges": ({0}, set()),
     ".edges": ({0}, {"data"}), ".nodes": ({0}, {"data"}), ".data": ({1}, set()), ".search": ({1}, set()), ".group": ({0}, set()),
     ".canonical_permutation": ({0}, {"color"}), ".permute_vertices": ({1}, set()), ".add_nodes_from": ({1}, set()), ".add_edges_from": ({1}, set()),
@@ -858,8 +858,11 @@ class FnTranslator:
         return f"(pyIter {self.e(e)})"
 
     def comprehension(self, e) -> str:
-        if len(e.generators) != 1:
-            raise Unsupported("nested comprehension generators")
+        if len(e.generators) > 1:
+            # [elt for a in A for b in B(a)] is the concatenation of the inner comprehensions
+            inner = ast.ListComp(elt=e.elt, generators=e.generators[1:])
+            outer = ast.ListComp(elt=inner, generators=[e.generators[0]])
+            return f"(List.flatten {self.comprehension(outer)})"
         g = e.generators[0]
         it = self.iter_expr(g.iter)
         tgt = self.pattern(g.target)
@@ -1586,6 +1589,12 @@ class FnTranslator:
                     return self.assign_to(recv, f"({fn} {g} {self.atom(self.as_list(x))})")
             if attr == "add" and isinstance(recv, ast.Name) and recv.id in self.sets:
                 return self.assign_to(recv, f"(PSet.add {self.e(recv)} {self.e(a[0])})")
+            if attr == "sort":
+                kws = {k.arg: k.value for k in c.keywords}
+                if a or set(kws) - {"reverse"} or ("reverse" in kws and not isinstance(kws["reverse"], ast.Constant)):
+                    raise Unsupported("list.sort variant")
+                rev = bool(kws["reverse"].value) if "reverse" in kws else False
+                return self.assign_to(recv, f"({'sortedRev' if rev else 'sorted'} {self.e(recv)})")
             if attr == "append":
                 return self.assign_to(recv, f"(pyAdd {self.e(recv)} [{self.expr(a[0])}])")
             if attr == "extend":
@@ -1618,12 +1627,24 @@ class FnTranslator:
         hidden_key = None
         if isinstance(it, ast.Call) and isinstance(it.func, ast.Attribute) and it.func.attr in ("items", "values"):
             r = it.func.value
-            if isinstance(r, ast.Name) and r.id in self.mutated:
-                if it.func.attr == "items" and isinstance(tgt, ast.Tuple) and isinstance(tgt.elts[1], ast.Name):
+            # the loop variable refers to the very objects stored in the dict: in-place changes of it are written back to the dict.
+            # For parameters this is always done; for local dicts when the body changes the loop variable in place.
+            if isinstance(r, ast.Name) and (r.id in self.mutated or (r.id in self.declared and self.live_after(r.id, s))):
+                if it.func.attr == "items" and isinstance(tgt, ast.Tuple) and isinstance(tgt.elts[1], ast.Name) and (
+                        r.id in self.mutated or self.var_mutated_in(tgt.elts[1].id, s.body, inplace_only=True)):
                     alias = (tgt.elts[1].id, r.id, tgt.elts[0].id)
-                elif it.func.attr == "values" and isinstance(tgt, ast.Name):
+                elif it.func.attr == "values" and isinstance(tgt, ast.Name) and (
+                        r.id in self.mutated or self.var_mutated_in(tgt.id, s.body, inplace_only=True)):
                     hidden_key = self.fresh("k")
                     alias = (tgt.id, r.id, hidden_key)
+        if alias is None:
+            # a loop variable that is changed in place refers to an element of the iterated container (a name, or the items/values
+            # of a name): without a write-back the change would be lost in the translation - harmless only if the container is dead
+            src = it.func.value if (isinstance(it, ast.Call) and isinstance(it.func, ast.Attribute) and it.func.attr in ("items", "values")) else it
+            if isinstance(src, ast.Name) and self.live_after(src.id, s):
+                for n in self.pattern_names(tgt):
+                    if self.var_mutated_in(n, s.body, inplace_only=True):
+                        raise Unsupported(f"in-place change of loop variable {n}, which refers to an element of {src.id}")
         if hidden_key:
             itexpr = f"(Dict.items {self.e(it.func.value)})"
             pat = f"({hidden_key}, {mangle(tgt.id)})"
@@ -1665,6 +1686,16 @@ class FnTranslator:
     def graph_nodes_subscript_q(self, e) -> bool:
         v = e.value
         return (isinstance(v, ast.Attribute) and v.attr == "nodes" and self.is_graph(v.value)) or (isinstance(v, ast.Name) and v.id in self.views)
+
+    def live_after(self, name: str, loop: ast.AST) -> bool:
+        """the variable is read after the loop statement (or, when the loop is nested in another loop, anywhere outside it)"""
+        inside = {id(n) for n in ast.walk(loop)}
+        nested = bool(self.loop_stack)
+        for n in ast.walk(self.fn):
+            if isinstance(n, ast.Name) and n.id == name and isinstance(n.ctx, ast.Load) and id(n) not in inside:
+                if nested or n.lineno > loop.end_lineno:
+                    return True
+        return name in self.params
 
     def var_mutated_in(self, name, body, inplace_only: bool = False) -> bool:
         for st in body:
